@@ -1230,6 +1230,9 @@ func (x *scanCtx) c08() {
 			}
 			if xn.CreationTimestamp.Time.Before(y.CreationTimestamp.Time) {
 				x.viol("C08", "c08-order", "", "", fmt.Sprintf("tainted %s (created %s) while strictly older untainted node %s (created %s) was neither tainted nor attempted", y.Name, y.CreationTimestamp.UTC().Format(time.RFC3339), xn.Name, xn.CreationTimestamp.UTC().Format(time.RFC3339)), putsOf(a, "taint")...)
+				if annotated(xn) && !annotated(y) {
+					x.viol("C10", "c10-counts", "not-tainted", "", fmt.Sprintf("annotated node %s is the older one, yet the younger %s was tainted in its place: the annotation protects from removal only, the node is tainted like any other", xn.Name, y.Name), putsOf(a, "taint")...)
+				}
 				return
 			}
 			if xn.CreationTimestamp.Time.Equal(y.CreationTimestamp.Time) {
@@ -1345,6 +1348,11 @@ func (x *scanCtx) c10() {
 			eligible = append(eligible, n)
 			if gs.StaleNodes[n.Name] {
 				return // a code that reads the candidate again may see it changed: the batch is not computable
+			}
+			for _, sn := range gs.StalePodNodes {
+				if sn == n.Name {
+					return // likewise for a pod the server already has on it
+				}
 			}
 		}
 	}
